@@ -631,9 +631,26 @@ func drainLoopsN(fn *ssa.Function) bool {
 		}
 		// the loop condition compares the induction variable with n
 		for _, cd := range core.CondsAt(b) {
-			if op, x, y, isCmp := core.BinCmp(cd.V); isCmp && cd.True && op == token.LSS && y == ssa.Value(n) {
-				if phi, isPhi := x.(*ssa.Phi); isPhi {
-					_ = phi
+			op, x, y, isCmp := core.BinCmp(cd.V)
+			if !isCmp {
+				continue
+			}
+			// i < n on the loop side, in either operand order / polarity
+			if !cd.True {
+				switch op {
+				case token.GEQ:
+					op = token.LSS
+				case token.LEQ:
+					op = token.GTR
+				default:
+					continue
+				}
+			}
+			if op == token.GTR {
+				op, x, y = token.LSS, y, x
+			}
+			if op == token.LSS && y == ssa.Value(n) {
+				if _, isPhi := x.(*ssa.Phi); isPhi {
 					ok = true
 				}
 			}
